@@ -365,16 +365,19 @@ pub fn run(out: &mut Out, seed: u64, thorough: bool, replay: Option<&str>) {
     let mut rng = Rng::new(seed ^ 0x9a7);
     let codes = [201i32, 203, 205, 301, 302, 999];
     let mut t0 = 6_000_000_000_000_000u64;
-    let mut case = |out: &mut Out, s: &mut PutqStream, kind: &str, xw: usize, xwo: usize| {
+    let mut case = |out: &mut Out, s: &mut PutqStream, kind: &str, xw: usize, xwo: usize, tid: Option<u64>| {
         t0 += 1_000_000_000_000;
-        out.begin(s, &format!("putq {kind} {xw} {xwo} {t0}"));
+        match tid {
+            None => out.begin(s, &format!("putq {kind} {xw} {xwo} {t0}")),
+            Some(tid) => out.begin(s, &format!("putq {kind} {xw} {xwo} {t0} {tid}")),
+        }
     };
     // ---- every subset of replies for small replica sets, all kinds
     for kind in ["imm", "mut", "ann", "sann"] {
         for n in 1..=(if thorough { 6 } else { 4 }) {
             let subsets: Vec<u32> = if n <= 4 || thorough { (0..(1u32 << n)).collect() } else { (0..8).map(|_| rng.below(1 << n) as u32).collect() };
             for mask in subsets {
-                case(out, &mut s, kind, 0, 0);
+                case(out, &mut s, kind, 0, 0, None);
                 out.run(&mut s, format!("start {} {}", n, rng.below(3)));
                 let mut order: Vec<usize> = (0..n).filter(|i| mask & (1 << i) != 0).collect();
                 rng.shuffle(&mut order);
@@ -393,7 +396,7 @@ pub fn run(out: &mut Out, seed: u64, thorough: bool, replay: Option<&str>) {
     for kind in ["mut", "imm", "ann"] {
         for n in [1usize, 2, 3, 5, 6] {
             for k301 in 0..=n {
-                case(out, &mut s, kind, 0, 0);
+                case(out, &mut s, kind, 0, 0, None);
                 out.run(&mut s, format!("start {n} 0"));
                 for i in 0..n {
                     let what = if i < k301 { "301" } else if rng.chance(1, 2) { "302" } else { "ok" };
@@ -410,7 +413,7 @@ pub fn run(out: &mut Out, seed: u64, thorough: bool, replay: Option<&str>) {
     for round in 0..(if thorough { 300 } else { 40 }) {
         let kind = *rng.pick(&["imm", "mut", "ann", "sann"]);
         let n = 1 + rng.below(6) as usize;
-        case(out, &mut s, kind, rng.below(2) as usize, 0);
+        case(out, &mut s, kind, rng.below(2) as usize, 0, None);
         out.run(&mut s, format!("start {} {}", n, rng.below(2)));
         let mut last_timeout = 500_000_000u64;
         for _ in 0..(3 + rng.below(10)) {
@@ -445,7 +448,7 @@ pub fn run(out: &mut Out, seed: u64, thorough: bool, replay: Option<&str>) {
     // ---- every request is "answered" from a wrong address first, then acknowledged by the addressed node
     for kind in ["imm", "mut", "ann", "sann"] {
         for n in [1usize, 3] {
-            case(out, &mut s, kind, 0, 0);
+            case(out, &mut s, kind, 0, 0, None);
             out.run(&mut s, format!("start {n} 0"));
             for i in 0..n {
                 out.run(&mut s, format!("reply {i} {} spoof", if i % 2 == 0 { "ok" } else { "203" }));
@@ -461,8 +464,7 @@ pub fn run(out: &mut Out, seed: u64, thorough: bool, replay: Option<&str>) {
     // ---- the transaction ids of one put straddle the wrap of the 32-bit counter
     for kind in ["imm", "mut", "ann", "sann"] {
         for (n, back) in [(3usize, 1u64), (5, 2), (6, 5), (2, 0), (4, 4)] {
-            t0 += 1_000_000_000_000;
-            out.begin(&mut s, &format!("putq {kind} 0 0 {t0} {}", ((1u64 << 32) - back) % (1u64 << 32)));
+            case(out, &mut s, kind, 0, 0, Some(((1u64 << 32) - back) % (1u64 << 32)));
             out.run(&mut s, format!("start {n} 0"));
             for i in 0..n {
                 let what = if kind == "mut" && i == 0 { "301" } else { "ok" };
@@ -476,7 +478,7 @@ pub fn run(out: &mut Out, seed: u64, thorough: bool, replay: Option<&str>) {
     }
     // ---- nothing to send to: no nodes, or no node carries a token
     for (nw, nwo) in [(0usize, 0usize), (0, 3)] {
-        case(out, &mut s, "imm", 0, 0);
+        case(out, &mut s, "imm", 0, 0, None);
         out.run(&mut s, format!("start {nw} {nwo}"));
         out.run(&mut s, "check".into());
         out.run(&mut s, "adv 60000000000".into());
@@ -484,7 +486,7 @@ pub fn run(out: &mut Out, seed: u64, thorough: bool, replay: Option<&str>) {
     }
     // ---- large replica sets through extra nodes: more than 255 acknowledgements / errors
     for (kind, closest, extra, what) in [("imm", 20usize, 300usize, "ok"), ("mut", 300, 10, "ok"), ("imm", 10, 280, "203"), ("mut", 5, 270, "301")] {
-        case(out, &mut s, kind, extra, 2);
+        case(out, &mut s, kind, extra, 2, None);
         out.run(&mut s, format!("start {closest} 1"));
         let total = closest.min(255) + extra;
         for i in 0..total {
